@@ -65,6 +65,7 @@ type ExtCall struct {
 }
 
 type clone struct {
+	e      *Explorer
 	fn     *ssa.Function
 	params []Prov
 	bools  []boolc
@@ -89,6 +90,7 @@ type Explorer struct {
 	Ext        map[string]*ExtCall
 	NondetSrc  map[string]token.Pos // E5: calls to wall-clock / random sources: name -> first position
 	NondetFn   map[string]*ssa.Function
+	heapBool   map[string]int8 // bool fields of fresh objects: 1 true, -1 false, 2 both
 	dirty      bool
 	Iterations int
 	Undecided  map[string]*EffViolation
@@ -96,7 +98,7 @@ type Explorer struct {
 
 func NewExplorer(p *core.Prog, scope ...string) *Explorer {
 	return &Explorer{P: p, Scope: scope, clones: map[string]*clone{}, heap: map[string]Prov{}, Viol: map[string]*EffViolation{},
-		Ext: map[string]*ExtCall{}, NondetSrc: map[string]token.Pos{}, NondetFn: map[string]*ssa.Function{}, Undecided: map[string]*EffViolation{}}
+		heapBool: map[string]int8{}, Ext: map[string]*ExtCall{}, NondetSrc: map[string]token.Pos{}, NondetFn: map[string]*ssa.Function{}, Undecided: map[string]*EffViolation{}}
 }
 
 func PointerLike(t types.Type) bool {
@@ -139,7 +141,7 @@ func (e *Explorer) get(fn *ssa.Function, params []Prov, bools []boolc, fvs []Pro
 	if c, ok := e.clones[k]; ok {
 		return c
 	}
-	c := &clone{fn: fn, params: params, bools: bools, fvs: fvs, vals: map[ssa.Value]Prov{}, tuples: map[ssa.Value][]Prov{}, parent: parent, site: site}
+	c := &clone{e: e, fn: fn, params: params, bools: bools, fvs: fvs, vals: map[ssa.Value]Prov{}, tuples: map[ssa.Value][]Prov{}, parent: parent, site: site}
 	e.clones[k] = c
 	e.order = append(e.order, c)
 	e.dirty = true
@@ -229,6 +231,17 @@ func (c *clone) boolOf(v ssa.Value) boolc {
 	case *ssa.UnOp:
 		if x.Op == token.NOT {
 			return -c.boolOf(x.X)
+		}
+		// a bool field of an object allocated in this call tree that was only ever assigned one constant
+		if x.Op == token.MUL && c.e != nil {
+			if fa, ok := x.X.(*ssa.FieldAddr); ok && c.prov(fa.X) == Fresh {
+				switch c.e.heapBool[c.e.heapKey(fa)] {
+				case 1:
+					return 1
+				case -1:
+					return -1
+				}
+			}
 		}
 	}
 	return 0
@@ -517,6 +530,26 @@ func (e *Explorer) instr(c *clone, in ssa.Instruction) {
 	case *ssa.Select:
 		e.set(c, x, Unknown)
 	case *ssa.Store:
+		if fa, ok := x.Addr.(*ssa.FieldAddr); ok {
+			if bt, isB := x.Val.Type().Underlying().(*types.Basic); isB && bt.Kind() == types.Bool {
+				k := e.heapKey(fa)
+				nv := int8(2)
+				switch c.boolOf(x.Val) {
+				case 1:
+					nv = 1
+				case -1:
+					nv = -1
+				}
+				old := e.heapBool[k]
+				if old == 0 {
+					e.heapBool[k] = nv
+					e.dirty = true
+				} else if old != nv && old != 2 {
+					e.heapBool[k] = 2
+					e.dirty = true
+				}
+			}
+		}
 		p := c.prov(x.Addr)
 		if _, isAlloc := x.Addr.(*ssa.Alloc); isAlloc {
 			e.heapAdd(e.heapKey(x.Addr), c.prov(x.Val))
